@@ -44,6 +44,24 @@ def select_indices(e, limit=12):
     return out
 
 
+def string_keys(exprs, skolems, limit=16):
+    """ground String terms used as keys of (String -> *) arrays: instantiation triggers for key quantifiers"""
+    out, seen, ids = list(skolems), set(x.sexpr() for x in skolems), set()
+    todo = list(exprs)
+    while todo and len(out) < limit:
+        x = todo.pop()
+        if not z3.is_app(x) or x.get_id() in ids:
+            continue
+        ids.add(x.get_id())
+        if x.decl().kind() in (z3.Z3_OP_SELECT, z3.Z3_OP_STORE) and x.arg(1).sort() == StrS:
+            k = x.arg(1)
+            if k.sexpr() not in seen:
+                seen.add(k.sexpr())
+                out.append(k)
+        todo.extend(x.children())
+    return out
+
+
 def theory_axioms(exprs):
     """Defining facts of the uninterpreted string vocabulary, one instance per application that occurs.
     lstrip(s): s == wsprefix(s) ++ lstrip(s), wsprefix all whitespace, result does not start with whitespace,
@@ -97,7 +115,12 @@ def build_query(ob, extra_axioms=()):
     s = z3.Solver()
     skolems = []
     goal = ob.goal
-    if isinstance(goal, VQ):
+    sskolems = []
+    if isinstance(goal, VQ) and goal.sort == "str":
+        sk = z3.String(fresh_name("sks"))
+        sskolems.append(sk)
+        neg = z3.And(goal.guard(sk), z3.Not(goal.body(sk)))
+    elif isinstance(goal, VQ):
         sk = z3.Int(fresh_name("sk"))
         skolems.append(sk)
         neg = z3.And(goal.lo <= sk, sk < goal.hi, z3.Not(goal.body(sk)))
@@ -106,9 +129,27 @@ def build_query(ob, extra_axioms=()):
     for h in ob.hyps:
         s.add(h)
     terms = inst_terms(ob, skolems + select_indices(neg))
+    sterms = None
     for q in ob.qfacts:
+        if q.sort == "str":
+            if sterms is None:
+                sterms = string_keys([neg] + list(ob.hyps), sskolems)
+            for t in sterms:
+                s.add(q.inst(t))
+            continue
         for t in terms:
             s.add(q.inst(t))
+    # second round: int-quantified facts at array reads whose index came out of the first round (order[pos[x]])
+    if sterms is not None:
+        more = []
+        for a in s.assertions()[len(ob.hyps):]:
+            more += select_indices(a, limit=8)
+        seen = set(t.sexpr() for t in terms)
+        more = [m for m in more if m.sexpr() not in seen][:12]
+        for q in ob.qfacts:
+            if q.sort != "str":
+                for t in more:
+                    s.add(q.inst(t))
     for a in extra_axioms:
         s.add(a)
     s.add(neg)
